@@ -75,7 +75,7 @@ def main(tier, seed):
     t0 = time.time()
     rep = C.Reporter(PID, tier, seed)
     C.build(['num'])
-    shards, per = (32, 800) if tier == 'quick' else (96, 3200)
+    shards, per = (32, 800) if tier == 'quick' else (160, 9400)
     bad, hist, samples, n = N.run_sharded(MOD, tier, seed, shards, per)
     for c, why in bad:
         rep.violation('num:' + c['script'], 'text round trip of a number fails',
